@@ -82,7 +82,7 @@ def tt_union_rows(MatrixA: np.ndarray, MatrixB: np.ndarray) -> np.ndarray:
         MatrixBUnique[np.argsort(idxB)], MatrixAUnique[np.argsort(idxA)]
     )
     union = np.vstack(
-        (MatrixB[np.sort(idxB[np.where(location < 0)])], MatrixA[np.sort(idxA)])
+        (MatrixB[np.sort(idxB)[np.where(location < 0)]], MatrixA[np.sort(idxA)])
     )
     return union
 
